@@ -8,7 +8,7 @@ from ..cfg import NORMAL, Node, handler_classes
 from ..core import Ctx
 from ..flow import ALL, find_path, names_in
 from ..model import AnalysisError, FunctionInfo, dotted, norm_text
-from .common import (edge_target, guarded_names, handler_exits, handler_key, handler_nodes, in_handler, kwarg,
+from .common import (cleanup_in_reraising_handler, edge_target, guarded_names, handler_exits, handler_key, handler_nodes, in_handler, kwarg,
                      path_arg, reachable_from)
 
 EXPLANATION = (
@@ -106,6 +106,8 @@ def r1(ctx: Ctx) -> None:
                 continue
             k = allow_key(ctx, f, hn)
             reason = SWALLOW_OK.get(k)
+            if reason is None and cleanup_in_reraising_handler(ctx, f, hn):
+                reason = "best-effort cleanup nested in a handler that re-raises the original error on every path"
             ctx.ob("C14.R1", f, handler_key(ctx, f, hn), hn, reason is not None,
                    (f"allow-listed: {reason}" if reason else
                     f"a handler on the read path can complete normally: a storage/parse failure would yield a partial or "
